@@ -2,7 +2,7 @@
 # Converse self-test: behaviour-preserving edits must not raise an alarm in any check.
 # usage: tools/benign.sh [patches..]   (default: benign/*.patch benign/wave*/*.patch; 4 patches in parallel, JOBS=n to change)
 DIR="$(cd "$(dirname "$0")/.." && pwd)"
-LIST="$@"; [ -z "$LIST" ] && LIST="$DIR/benign/*.patch $DIR/benign/wave/*.patch $DIR/benign/wave2/*.patch $DIR/benign/wave3/*.patch $DIR/benign/wave4/*.patch $DIR/benign/wave5/*.patch $DIR/benign/wave6/*.patch"
+LIST="$@"; [ -z "$LIST" ] && LIST="$DIR/benign/*.patch $DIR/benign/wave/*.patch $DIR/benign/wave2/*.patch $DIR/benign/wave3/*.patch $DIR/benign/wave4/*.patch $DIR/benign/wave5/*.patch $DIR/benign/wave6/*.patch $DIR/benign/wave7/*.patch"
 one() {
   DIR="$1"; p=$(realpath "$2")
   SCR=$(mktemp -d /tmp/ben.XXXXXX)
